@@ -44,13 +44,15 @@ func runC02(rc *RunCtx) {
 	forced, isForced := rc.Spec.Params["force"]
 	// weights:       fund swap melt resolve replay dup race checkstate restore restart clock adv internal rotate mintrace
 	weights := []int{2, 5, 5, 2, 0, 0, 1, 0, 0, 2, 0, 4, 2, 1, 2}
+	// a quarter of the random runs additionally inject storage errors into ordinary operations
+	faults := !isForced && T.Chance("cfg.faults", 1, 4)
 	rc.StepLoop(3, 16, func(i int) {
 		m.step = i
 		kind := T.Pick("step.kind", weights...)
 		if isForced && i%2 == 0 {
 			kind = forced
 		}
-		m.Step(kind, true)
+		m.StepMaybeFaulted(kind, true, faults)
 	})
 	m.Finale()
 	rc.Nontrivial = rc.S.Stats["book_swap_ok"] > 2 || rc.S.Stats["ln_pay_attempt"] > 0
